@@ -25,7 +25,8 @@ pub fn parse_char_list(input: &str) -> Result<String, DataError> {
         return Ok(new);
     }
 
-    let real_len = input.len() - start_quote_count * 2;
+    // counted in characters, the same unit skip and take below work in
+    let real_len = input.chars().count() - start_quote_count * 2;
 
     let mut check_escape = false;
     let mut in_unicode = false;
@@ -105,7 +106,8 @@ pub fn parse_byte_list(input: &str) -> Result<Vec<u8>, DataError> {
         return Ok(bytes);
     }
 
-    let real_len = input.len() - start_quote_count * 2;
+    // counted in characters, the same unit skip and take below work in
+    let real_len = input.chars().count() - start_quote_count * 2;
 
     if start_quote_count >= 2 {
         parse_byte_list_numbers(&input[start_quote_count..(input.len() - start_quote_count)])
